@@ -406,8 +406,13 @@ class TaggedUnionConverter(UnionConverter):
         tag = getattr(val, self.tag)
         inner_conv = self.converters[self.tag_map[tag]]
         if self.external is False:
-            # internally tagged
-            return inner_conv.into_data(val)
+            # internally tagged: ``{tag_name: tag_value, **obj}``
+            data = inner_conv.into_data(val)
+            if data_is_mapping(data) and self.tag not in data:
+                # the variant doesn't write the tag itself (it's a plain class attribute,
+                # an excluded field, or a field written under another name)
+                return {self.tag: tag, **t.cast(t.Mapping[str, t.Any], data)}
+            return data
         if self.external is True:
             # externally tagged
             return {tag: inner_conv.into_data(val)}
